@@ -20,6 +20,7 @@ import Driver.C12
 import Driver.C13
 import Driver.C16
 import Driver.C14
+import Driver.C15
 open Lean
 
 namespace Driver
@@ -45,6 +46,7 @@ def handle (j : Json) : Json :=
   | .ok "C13" => C13.handle j
   | .ok "C16" => C16.handle j
   | .ok "C14" => C14.handle j
+  | .ok "C15" => C15.handle j
   | _ => badOp
 
 partial def loop (hin hout : IO.FS.Stream) : IO Unit := do
